@@ -77,7 +77,7 @@ func familyConfig(family string, rng *rand.Rand) Scenario {
 		ExpireAfter: 2 + rng.Intn(2), RecoverTTL: 2 + rng.Intn(2), RecoverLogin: rng.Intn(2) == 0,
 		LogoutMethod: []string{"DELETE", "POST", "GET"}[rng.Intn(3)], MWReqs: rng.Intn(4),
 		MWFail: []string{"404", "401", "redirect"}[rng.Intn(3)], ErrWrites: rng.Intn(2) == 0,
-		TotpOneTime: rng.Intn(2) == 0}
+		TotpOneTime: rng.Intn(2) == 0, FoldPid: rng.Intn(3) == 0}
 	switch rng.Intn(3) {
 	case 1:
 		c.Whitelist = []string{"app1"}
@@ -249,6 +249,8 @@ func (g *genCtx) nextEvent(family string) sut.Event {
 		e.Valid = true
 		if g.chance(0.1) {
 			e.Valid, e.Junk = false, "bademail"
+		} else if c.FoldPid && g.chance(0.5) {
+			e.Junk = "case" // a spelling the normalising store resolves to the same account
 		}
 	case "RecoverEnd":
 		e.Tok = g.idOrJunk(iss["rt"], 0.4)
